@@ -162,10 +162,18 @@ type LoopCtx struct {
 	pre        *Snapshot // state right before the havoc at loop entry
 	headTokens map[string]int
 	headLocks  int
+	headCreated int
+}
+
+type createdObj struct {
+	ref   T
+	sname string
+	at    ssa.Instruction
 }
 
 type State struct {
 	pc       []T
+	created  []createdObj // structs allocated by this activation (lock invariants are checked for them)
 	promo    map[*Cell]bool // local variables living in the heap in this state
 	litCache map[*SliceLit]T
 	cells    map[*Cell]Value
@@ -238,6 +246,7 @@ func (s *State) clone() *State {
 	for k, v := range s.promo {
 		n.promo[k] = v
 	}
+	n.created = append([]createdObj(nil), s.created...)
 	n.litCache = make(map[*SliceLit]T, len(s.litCache))
 	for k, v := range s.litCache {
 		n.litCache[k] = v
